@@ -23,6 +23,7 @@ type hdrOp struct {
 type hdrCase struct {
 	Ops  []hdrOp
 	Path string `json:",omitempty"` // request path ("" = /c19); /c19p/<segment>/end matches a parameter route
+	Diag bool   `json:",omitempty"` // the router has a diagnostics handler registered (router.WithDiagnostics)
 }
 
 var hdrPaths = []string{"", "", "", "/c19p/plain/end", "/c19p/a%0d%0aSet-Cookie:%20s=evil/end", "/c19p/x%0Ay/end", "/c19p/%0d/end", "/c19p/caf%C3%A9/end"}
@@ -138,7 +139,7 @@ func genHdrOp(r *hx.Rand) hdrOp {
 }
 
 func genHdr(r *hx.Rand) *hdrCase {
-	k := &hdrCase{Path: hx.Pick(r, hdrPaths)}
+	k := &hdrCase{Path: hx.Pick(r, hdrPaths), Diag: r.Chance(1, 3)}
 	n := r.Range(1, 5)
 	for i := 0; i < n; i++ {
 		op := genHdrOp(r)
@@ -260,7 +261,7 @@ func emitHdr(id string, k *hdrCase, st *hx.Stats) string {
 		vals [][]string
 	}
 	obs := make([]obsT, len(k.Ops))
-	serveAt(k.Path, func(c *router.Context) {
+	serveAt(k.Path, k.Diag, func(c *router.Context) {
 		for i, o := range k.Ops {
 			obs[i].p = doHdrOp(c, o)
 			for _, key := range allKeys[i] {
@@ -292,6 +293,9 @@ func emitHdr(id string, k *hdrCase, st *hx.Stats) string {
 	if st != nil {
 		st.Case(in[len(id):], ctl)
 		st.Count("H")
+		if k.Diag {
+			st.Count("H_router_with_diagnostics_handler")
+		}
 		if strings.Contains(k.Path, "%0") {
 			st.Count("H_request_path_with_encoded_CR_LF")
 		}
